@@ -126,3 +126,38 @@ CHECKS['C05'] = dict(
              plan={'quick': 'prog_vs_model=480', 'thorough': 'prog_vs_model=40000'}),
     ],
 )
+
+
+def selftest(V):
+    """Model self-test against anchors independent of /repo (RFC vectors, hashlib, AES-NI, published digests)."""
+    import subprocess, hashlib, glob
+    lib = V.ensure_model()
+    d = os.path.dirname(lib)
+    exe = os.path.join(d, 'selftest')
+    if not os.path.exists(exe):
+        srcs = sorted(glob.glob(os.path.join(V.VERIF, 'model', 'selftest', '*.cpp')))
+        r = V.sh(['g++', '-std=gnu++17', '-O2', '-maes', '-frounding-math', '-I', os.path.join(V.VERIF, 'model'), '-o', exe + '.tmp'] + srcs + [lib, '-lpthread'])
+        if r.returncode != 0:
+            print('selftest build failed:\n' + r.stdout)
+            return 1
+        os.replace(exe + '.tmp', exe)
+    stamp = os.path.join(d, 'selftest.ok')
+    if os.path.exists(stamp):
+        return 0
+    r = V.sh([exe])
+    print(r.stdout.strip())
+    if r.returncode != 0:
+        return 1
+    r = V.sh([exe, 'blake-cases'])
+    n = 0
+    for line in r.stdout.splitlines():
+        m, k, o, dg = line.split()
+        m = b'' if m == '-' else bytes.fromhex(m)
+        k = b'' if k == '-' else bytes.fromhex(k)
+        if hashlib.blake2b(m, digest_size=int(o), key=k).hexdigest() != dg:
+            print('SELFTEST-FAIL blake2b model vs hashlib: ' + line[:200])
+            return 1
+        n += 1
+    print('model blake2b agrees with hashlib on %d cases' % n)
+    open(stamp, 'w').write('ok')
+    return 0
